@@ -28,11 +28,19 @@ extern parsec_verif_cb_t parsec_verif_cb __attribute__((weak));
                 parsec_verif_cb(PARSEC_VERIF_EV_WAIT, NULL);             \
         }                                                                \
     } while(0)
+/* Placed in front of the CAS spin loop of parsec_atomic_lock (a void function): under a
+ * controlled scheduler the whole acquisition is done here - wait (disabled) until the lock is
+ * free, try the CAS, and wait again if another thread won the race in between - and the
+ * function returns; the original loop that follows is only reached without a scheduler. */
 #define PARSEC_VERIF_LOCK_WAIT(lockp)                                    \
     do {                                                                 \
         if( (NULL != &parsec_verif_cb) && (NULL != parsec_verif_cb) ) {  \
-            while( 0 != *(volatile int32_t*)(lockp) )                    \
-                parsec_verif_cb(PARSEC_VERIF_EV_WAIT, (lockp));          \
+            for(;;) {                                                    \
+                while( 0 != *(volatile int32_t*)(lockp) )                \
+                    parsec_verif_cb(PARSEC_VERIF_EV_WAIT, (lockp));      \
+                if( parsec_atomic_cas_int32( (lockp), 0, 1 ) )           \
+                    return;                                              \
+            }                                                            \
         }                                                                \
     } while(0)
 
